@@ -5,6 +5,9 @@ Model driver for C12. Line protocol (fields separated by one space, lists by ','
   write <hash32> <uuid:0|1,...>        -- request arrival order of a write refused everywhere
   bal   <hash32> <uuid,...>            -- keep-balance's server ranking for the block
   roots <locator> <uuid=root,...> <gwuuid=root,...>   -- getSortedRoots
+  pyorder <hash32> <uuid,...>           -- Python SDK: discovery of disk services + weighted_service_roots
+  pyload  <hash32> <uuid:d|p|g:0|1,...> -- Python SDK: read order ';' write order after discovery
+  pyroots <locator> <uuid=root,...> <gwuuid=root,...>  -- Python SDK: hint roots ';' local order
   balpair <hashA> <hashB> <uuid,...> [rep]  -- rankings of two blocks whose balanceBlock calls overlap
   balsweep <seed32> <uuid,...> <n>:<d>      -- n blocks (hash i = md5(seed:i)) in one ComputeChangeSets
 Output: the order as tie groups separated by '|', members of a group sorted and joined by ','
@@ -14,6 +17,7 @@ inside the group is unspecified). `roots` prints hint roots joined by ',' then '
 import ArvVerif.Base.MD5
 import ArvVerif.Base.Loop
 import ArvVerif.Model.C12
+import ArvVerif.Model.C12_Py
 open ArvVerif ArvVerif.C12
 
 def md5Nat (cs : List Char) : Nat :=
@@ -67,11 +71,53 @@ def sweepOne (seed : String) (uuids : List String) (d i : Nat) : String :=
   let idx := (wantedServers d (probeOrder w uuids)).map (fun u => uuids.idxOf u)
   String.ofList ((idx.toArray.qsort (· < ·)).toList.map (fun j => sweepDigits.getD j '?'))
 
+/-! Python SDK ops (exact orders: Python's sort is stable) -/
+
+def joinOr (xs : List String) : String := if xs.isEmpty then "-" else ",".intercalate xs
+
+def pyW (hash : String) : List Char → Nat := pyWeight md5Nat hash.toList
+
+def parsePySvc (s : String) : Option PySvc :=
+  match s.splitOn ":" with
+  | [u, t, ro] =>
+    if (t == "d" || t == "p" || t == "g") && (ro == "0" || ro == "1") then
+      some { uuid := u.toList, gateway := t == "g", readOnly := ro == "1" }
+    else none
+  | _ => none
+
+def showPy (l : List PySvc) : String := joinOr (l.map (fun s => String.ofList s.uuid))
+
+/-- `pyroots`: KeepLocator parse, hint roots, stable order of the static local services. Also an
+executable cross-check on every case: the hints Python keeps designate the same targets, in the
+same order, as Go's scan over ALL `+` fields (`hintTargets`); printed as `targets-differ` if not. -/
+def pyRootsOne (loc locals gws : String) : String :=
+  match (splitList locals).mapM (parsePair '='), (splitList gws).mapM (parsePair '=') with
+  | some ls, some gs =>
+    let fs := (loc.splitOn "+").map String.toList
+    match pyParseFields fs with
+    | none => "invalid-locator"
+    | some (md5, hints) =>
+      let gw := fun (u : List Char) => (gs.find? (fun p => p.1.toList == u)).map (·.2.toList)
+      if hintTargets gw hints != hintTargets gw fs then "targets-differ" else
+      let hr := pyHintRoots gw hints
+      let svcs := ls.map (fun p => ({ uuid := p.1.toList, gateway := false, readOnly := false } : PySvc))
+      joinOr (hr.map String.ofList) ++ ";" ++ showPy (pyOrder (pyW (String.ofList md5)) svcs)
+  | _, _ => "bad-op"
+
 def step (line : String) : String :=
   match fields line with
   | [op, hash, us] =>
     if hash.length != 32 then "bad-op" else
-    if op == "order" || op == "read" || op == "bal" then
+    if op == "pyorder" then
+      let svcs := (splitList us).map (fun u => ({ uuid := u.toList, gateway := false, readOnly := false } : PySvc))
+      if svcs.isEmpty then "no-keep-servers" else showPy (pyOrder (pyW hash) (pyKeepServices svcs))
+    else if op == "pyload" then
+      match (splitList us).mapM parsePySvc with
+      | some items =>
+        if items.isEmpty then "no-keep-servers" else
+        showPy (pyOrder (pyW hash) (pyKeepServices items)) ++ ";" ++ showPy (pyOrder (pyW hash) (pyWritableServices items))
+      | none => "bad-op"
+    else if op == "order" || op == "read" || op == "bal" then
       showGroups (groupsOf hash (splitList us))
     else if op == "write" then
       match (splitList us).mapM (parsePair ':') with
@@ -93,6 +139,7 @@ def step (line : String) : String :=
   | ["bal", hash, us, _rep] =>
     -- per-mount replication only changes how keep-balance's ranking is observed, not the ranking
     if hash.length != 32 then "bad-op" else showGroups (groupsOf hash (splitList us))
+  | ["pyroots", loc, locals, gws] => pyRootsOne loc locals gws
   | ["balpair", ha, hb, us] | ["balpair", ha, hb, us, _] =>
     -- two blocks balanced on one Balancer with overlapping calls: each ranking is that of the block
     -- alone (the ranking is local to a balanceBlock call, C12_sweep_any_schedule)
